@@ -50,7 +50,9 @@ Print Assumptions C13_bisect_cache_transparent.
 
 (* ================================================================ .debug_aranges *)
 (* round trip: every tuple of every set with its set header, in encoded order; any number of
-   sets, address size 4 or 8 per set, any padding/trailing bytes, both byte orders *)
+   sets, address size 4 or 8 per set IN ANY MIXTURE, each set starting wherever the previous one
+   ends (no alignment of set starts is assumed: the header padding is counted from the start of
+   the set, DWARF 6.1.2), any padding/trailing bytes, both byte orders *)
 Theorem C13_aranges_entries_exact : forall le sets,
   wf_aranges sets = true ->
   get_entries le false (encode_aranges le sets) (zlen (encode_aranges le sets)) =
@@ -92,6 +94,26 @@ Theorem C13_lookup_end_to_end : forall le sets a,
    cu_offset_at_addr t a) = Ok (lookup_spec (aranges_entries sets) a).
 Proof. exact aranges_lookup_end_to_end. Qed.
 Print Assumptions C13_lookup_end_to_end.
+
+(* a deviation found in the code as shipped (repaired by fix: efe8bbe): the header padding was
+   counted from the start of the SECTION.  A well-formed table whose second set (8-byte
+   addresses) starts at offset 24 made the old code raise ELFParseError where binutils and LLVM
+   print the range ... *)
+Theorem C13_aranges_section_padding_refuted :
+  exists sets, wf_aranges sets = true /\ ranges_disjoint (aranges_entries sets) = true /\
+    aranges_entries sets = [mk_arange_entry 0x1000 0x10 0x40 44 2 8 0] /\
+    get_entries_unfixed true false (encode_aranges true sets) (zlen (encode_aranges true sets)) = Err EParse.
+Proof. exact aranges_section_padding_refuted. Qed.
+Print Assumptions C13_aranges_section_padding_refuted.
+
+(* ... and on tables whose sets all start at a multiple of their tuple size (the domain this
+   property's theorems had before the repair) the old and the repaired code agree *)
+Theorem C13_aranges_unfixed_agrees_aligned : forall le sets,
+  wf_aranges sets = true -> aranges_aligned sets = true ->
+  get_entries_unfixed le false (encode_aranges le sets) (zlen (encode_aranges le sets)) =
+  get_entries le false (encode_aranges le sets) (zlen (encode_aranges le sets)).
+Proof. exact aranges_unfixed_agrees_aligned. Qed.
+Print Assumptions C13_aranges_unfixed_agrees_aligned.
 
 (* the deviation found in the code as shipped (DESIGN 5; repaired by a fix: commit): on a table
    whose sets are all empty the old cu_offset_at_addr raised IndexError where the spec says None *)
@@ -257,12 +279,15 @@ Proof. exact @die_from_lut_bytes. Qed.
 Print Assumptions C13_die_from_lut.
 
 (* ================================================================ non-vacuity *)
+(* an 8-byte-address set at offset 24 (not a multiple of its tuple size 16) between two
+   4-byte-address sets, the last one at offset 92 (not a multiple of 8) *)
 Definition ex_sets : list arange_set :=
-  [mk_arange_set 2 0 8 [1; 2; 3; 4] [(0x1010, 0x20); (0x1000, 0x10)] [];
-   mk_arange_set 5 0x40 4 [0; 0; 0; 0] [] [];
+  [mk_arange_set 5 0x40 4 [0; 0; 0; 0] [] [];
+   mk_arange_set 2 0 8 [1; 2; 3; 4] [(0x1010, 0x20); (0x1000, 0x10)] [];
    mk_arange_set 2 0x80 4 [9; 9; 9; 9] [(0x10, 8)] [7]].
 Example C13_ex_aranges :
-  wf_aranges ex_sets = true /\ ranges_disjoint (aranges_entries ex_sets) = true /\
+  wf_aranges ex_sets = true /\ aranges_aligned ex_sets = false /\
+  ranges_disjoint (aranges_entries ex_sets) = true /\
   lookup_spec (aranges_entries ex_sets) 0x100f = Some 0 /\
   lookup_spec (aranges_entries ex_sets) 0x1030 = None /\
   (do t <- aranges_init false (encode_aranges false ex_sets) (zlen (encode_aranges false ex_sets));
